@@ -224,6 +224,13 @@ static IN_FLIGHT: AtomicU64 = AtomicU64::new(u64::MAX);
 static IN_FLIGHT_SINCE_MS: AtomicU64 = AtomicU64::new(0);
 static CASE_BUDGET_MS: AtomicU64 = AtomicU64::new(10_000);
 
+/// Monotonic milliseconds since the process started (immune to wall-clock steps).
+fn mono_ms() -> u64 {
+    use std::sync::OnceLock;
+    static START: OnceLock<Instant> = OnceLock::new();
+    START.get_or_init(Instant::now).elapsed().as_millis() as u64
+}
+
 fn now_ms() -> u64 {
     SystemTime::now()
         .duration_since(UNIX_EPOCH)
@@ -234,6 +241,8 @@ fn now_ms() -> u64 {
 pub enum Mode {
     Run,
     Describe(u64),
+    /// Run exactly one case (used by the parent to confirm a reported hang).
+    Only(u64),
 }
 
 pub struct Sink {
@@ -243,6 +252,8 @@ pub struct Sink {
     pub careful: bool,
     pub seed: u64,
     pub mode: Mode,
+    /// Cases already accounted for by the parent (confirmed hangs, stalls re-run alone).
+    skip: Vec<u64>,
     deadline_ms: u64,
     stats: Stats,
     seen: HashSet<u64>,
@@ -256,8 +267,17 @@ impl Sink {
     /// True when the case with global index `idx` belongs to this worker.
     pub fn mine(&self, idx: u64) -> bool {
         match self.mode {
-            Mode::Describe(i) => i == idx,
-            Mode::Run => idx >= self.from && idx % self.nshards == self.shard,
+            Mode::Describe(i) | Mode::Only(i) => i == idx,
+            Mode::Run => idx >= self.from && idx % self.nshards == self.shard && !self.skip.contains(&idx),
+        }
+    }
+
+    /// `Some(i)` when this worker handles the single case `i` (describe / confirm modes):
+    /// index-addressable engines jump straight to it.
+    pub fn single(&self) -> Option<u64> {
+        match self.mode {
+            Mode::Describe(i) | Mode::Only(i) => Some(i),
+            Mode::Run => None,
         }
     }
 
@@ -265,6 +285,9 @@ impl Sink {
     pub fn expired(&mut self) -> bool {
         if let Mode::Describe(_) = self.mode {
             return self.described.is_some();
+        }
+        if let Mode::Only(_) = self.mode {
+            return self.last_done.is_some();
         }
         if !self.expired && now_ms() > self.deadline_ms {
             self.expired = true;
@@ -304,12 +327,19 @@ impl Sink {
         if self.expired() {
             return;
         }
-        IN_FLIGHT_SINCE_MS.store(now_ms(), Ordering::SeqCst);
+        IN_FLIGHT_SINCE_MS.store(mono_ms(), Ordering::SeqCst);
         IN_FLIGHT.store(idx, Ordering::SeqCst);
         if self.careful {
             let mut o = std::io::stdout().lock();
             let _ = writeln!(o, "B {idx}");
             let _ = o.flush();
+        }
+        // Self-test of the hang handling: OALMC_TEST_STALL=<idx> makes the worker that meets
+        // that case in normal mode sleep past the watchdog (a stall, not a real hang).
+        if let Mode::Run = self.mode {
+            if std::env::var("OALMC_TEST_STALL").ok().and_then(|v| v.parse::<u64>().ok()) == Some(idx) {
+                std::thread::sleep(Duration::from_millis(CASE_BUDGET_MS.load(Ordering::SeqCst) + 1500));
+            }
         }
         let res = catch_unwind(AssertUnwindSafe(|| run(self)));
         IN_FLIGHT.store(u64::MAX, Ordering::SeqCst);
@@ -429,6 +459,12 @@ pub fn worker_main(engine: &dyn Engine, args: &[String]) -> i32 {
     let careful = args[5] == "1";
     let deadline_ms: u64 = args[6].parse().unwrap();
     let describe: Option<u64> = args.get(7).and_then(|s| s.parse().ok());
+    let only: Option<u64> = args.get(7).and_then(|s| s.strip_prefix("only:")).and_then(|s| s.parse().ok());
+    let skip: Vec<u64> = args
+        .iter()
+        .filter_map(|s| s.strip_prefix("skip:"))
+        .flat_map(|s| s.split(',').filter_map(|x| x.parse().ok()).collect::<Vec<u64>>())
+        .collect();
     let seed: u64 = std::env::var("VERIF_SEED")
         .ok()
         .and_then(|s| s.parse().ok())
@@ -454,7 +490,7 @@ pub fn worker_main(engine: &dyn Engine, args: &[String]) -> i32 {
             let idx = IN_FLIGHT.load(Ordering::SeqCst);
             if idx != u64::MAX {
                 let since = IN_FLIGHT_SINCE_MS.load(Ordering::SeqCst);
-                if now_ms().saturating_sub(since) > CASE_BUDGET_MS.load(Ordering::SeqCst)
+                if mono_ms().saturating_sub(since) > CASE_BUDGET_MS.load(Ordering::SeqCst)
                     && IN_FLIGHT.load(Ordering::SeqCst) == idx
                 {
                     let mut o = std::io::stdout().lock();
@@ -472,10 +508,12 @@ pub fn worker_main(engine: &dyn Engine, args: &[String]) -> i32 {
         from,
         careful,
         seed,
-        mode: match describe {
-            Some(i) => Mode::Describe(i),
-            None => Mode::Run,
+        mode: match (describe, only) {
+            (Some(i), _) => Mode::Describe(i),
+            (None, Some(i)) => Mode::Only(i),
+            (None, None) => Mode::Run,
         },
+        skip,
         deadline_ms,
         stats: Stats::default(),
         seen: HashSet::new(),
@@ -524,6 +562,8 @@ enum Event {
 }
 
 struct ShardState {
+    /// Cases of this shard that the parent has already accounted for.
+    skip: Vec<u64>,
     from: u64,
     careful: bool,
     sticky_careful: bool,
@@ -571,6 +611,10 @@ fn spawn_worker(
         .arg(st.from.to_string())
         .arg(if st.careful { "1" } else { "0" })
         .arg(deadline_ms.to_string())
+        .arg(format!(
+            "skip:{}",
+            st.skip.iter().map(|x| x.to_string()).collect::<Vec<_>>().join(",")
+        ))
         .stdin(Stdio::null())
         .stdout(Stdio::piped())
         .stderr(Stdio::null())
@@ -615,6 +659,56 @@ pub fn describe_case(engine: &dyn Engine, tier: Tier, phase_idx: usize, idx: u64
         }
     }
     Value::Null
+}
+
+enum Confirm {
+    Completed(Stats),
+    Hang,
+    Died(String),
+}
+
+/// Re-runs one case alone in a fresh worker.
+fn confirm_case(engine: &dyn Engine, tier: Tier, phase_idx: usize, idx: u64) -> Confirm {
+    let exe = match std::env::current_exe() {
+        Ok(e) => e,
+        Err(_) => return Confirm::Hang,
+    };
+    let out = Command::new(exe)
+        .arg("worker")
+        .arg(engine.id())
+        .arg(tier.name())
+        .arg(phase_idx.to_string())
+        .args(["0", "1", "0", "0", &u64::MAX.to_string(), &format!("only:{idx}")])
+        .stderr(Stdio::null())
+        .output();
+    let Ok(out) = out else { return Confirm::Hang };
+    use std::os::unix::process::ExitStatusExt;
+    let text = String::from_utf8_lossy(&out.stdout);
+    let mut stats = Stats::default();
+    let mut done = false;
+    for l in text.lines() {
+        if l.starts_with("H ") {
+            return Confirm::Hang;
+        }
+        if let Some(rest) = l.strip_prefix("K ").or_else(|| l.strip_prefix("D ")) {
+            if let Some((_, js)) = rest.split_once(' ') {
+                if let Ok(st) = serde_json::from_str::<Stats>(js) {
+                    stats.merge(st);
+                }
+            }
+            if l.starts_with("D ") {
+                done = true;
+            }
+        }
+    }
+    if let Some(sig) = out.status.signal() {
+        return Confirm::Died(format!("abort({})", signal_name(sig)));
+    }
+    if done && stats.cases >= 1 {
+        Confirm::Completed(stats)
+    } else {
+        Confirm::Hang
+    }
 }
 
 fn signal_name(sig: i32) -> String {
@@ -665,6 +759,7 @@ pub fn explore(engine: &dyn Engine, tier: Tier) -> RunReport {
         let (tx, rx) = mpsc::channel::<Event>();
         let mut shards: Vec<ShardState> = (0..nshards)
             .map(|_| ShardState {
+                skip: Vec::new(),
                 from: 0,
                 careful: false,
                 sticky_careful: false,
@@ -760,8 +855,47 @@ pub fn explore(engine: &dyn Engine, tier: Tier) -> RunReport {
                     let sig = status.and_then(|st| st.signal());
                     let code = status.and_then(|st| st.code());
                     let mut respawn = true;
-                    if let Some(h) = shards[s].hang.take() {
-                        // Hang attributed by the worker's own watchdog.
+                    let mut hang = shards[s].hang.take();
+                    if let Some(h) = hang {
+                        // A machine-wide stall also looks like a hang: run the case once more,
+                        // alone, before believing the watchdog.
+                        match confirm_case(engine, tier, phase_idx, h) {
+                            Confirm::Completed(mut st) => {
+                                phase_cases += st.cases;
+                                for d in st.distinct.drain(..) {
+                                    report.distinct.insert(d);
+                                }
+                                for v in st.violations.iter_mut() {
+                                    v.phase = phase.name.clone();
+                                }
+                                *st.counters.entry("hangs not confirmed on re-run".into()).or_default() += 1;
+                                report.merged.merge(st);
+                                shards[s].skip.push(h);
+                                hang = None;
+                                // fall through to the respawn below
+                                shards[s].careful = shards[s].sticky_careful;
+                            }
+                            Confirm::Hang => {}
+                            Confirm::Died(sig) => {
+                                let case = describe_case(engine, tier, phase_idx, h);
+                                report.merged.cases += 1;
+                                phase_cases += 1;
+                                *report.merged.hist.entry("abort".into()).or_default() += 1;
+                                report.merged.violations.push(Violation {
+                                    signature: engine.crash_signature(&sig, &case),
+                                    summary: format!("worker process died with {sig} while re-running this case alone"),
+                                    case,
+                                    idx: h,
+                                    phase: phase.name.clone(),
+                                });
+                                shards[s].skip.push(h);
+                                shards[s].aborts += 1;
+                                hang = None;
+                            }
+                        }
+                    }
+                    if let Some(h) = hang {
+                        // Hang attributed by the worker's own watchdog and confirmed.
                         let case = describe_case(engine, tier, phase_idx, h);
                         report.merged.cases += 1;
                         phase_cases += 1;
@@ -776,8 +910,10 @@ pub fn explore(engine: &dyn Engine, tier: Tier) -> RunReport {
                             idx: h,
                             phase: phase.name.clone(),
                         });
-                        shards[s].from = h + 1;
+                        shards[s].skip.push(h);
                         shards[s].aborts += 1;
+                    } else if code == Some(3) {
+                        // hang not confirmed or turned into an abort: already accounted for
                     } else if code == Some(2) {
                         if report.machinery_error.is_none() {
                             report.machinery_error = Some("worker reported a harness error".into());
